@@ -129,7 +129,7 @@ def job_zero_and_ceiling(job, nx, rows, descending=False):
             job.prove(f"ceiling[{tag}]/finite[path{k}][{len(seen)}]", pr.pc + [T.b_lt(T.ZERO, P(rho_f)), T.b_not(cond)], bound=tag, note=why[:80], replay=rp)
 
 
-def replay_ceiling_run(model, nx=3, tdtype="i8"):
+def replay_ceiling_run(model, nx=3, tdtype="i8", after_schedule=False):
     """Real run on the shipped gas table with a non-integer frac-face pressure close to the initial pressure, whole-day
     time grid of the given dtype, large steps: in-place recovery against its ceiling 1 - rho(p_f)/rho(p_i)."""
     import numpy as np
@@ -139,6 +139,11 @@ def replay_ceiling_run(model, nx=3, tdtype="i8"):
     pf = 7990.6
     res = rr.SinglePhaseReservoir(max(nx, 80), pf, 8000.0, fluid)
     t = (np.arange(0, 60) * 500).astype({"i8": "int64", "f8": "float64", "i4": "int32"}[tdtype])
+    if after_schedule:
+        # the object was first run with a drawdown schedule of the same length (a history match), then with its own constant
+        # frac-face pressure: the ceiling is that of the constant pressure
+        res.simulate(t, pressure_fracface=np.linspace(7900.0, 1500.0, len(t)))
+        res.recovery_factor(density=True)
     res.simulate(t)
     rf = np.asarray(res.recovery_factor(density=True), float)
     pp = np.asarray(res.pseudopressure, float)
@@ -150,13 +155,13 @@ def replay_ceiling_run(model, nx=3, tdtype="i8"):
                          f"{rf.max()!r}, ceiling 1 - rho(p_f)/rho(p_i) = {ceil!r}; lowest stored value {pp.min()!r} vs frac-face value {m_f!r}", "inputs": {}}
 
 
-def job_ceiling_run(job, nx, tdtype):
+def job_ceiling_run(job, nx, tdtype, after_schedule=False):
     """The ceiling for the field the real simulate stores (ideal solve, first step from the real initial state), with
     the frac-face value of the object's own frac-face pressure - whatever the dtype of the time grid."""
     mod = load_reservoir()
     job.encoded(mod, "IdealReservoir.recovery_factor", "SinglePhaseReservoir.simulate")
     job.solve_defaults = {"abstract": True}
-    tag = f"nx={nx},table=2,{ {'i8': 'int64', 'f8': 'float64'}[tdtype] } time grid"
+    tag = f"nx={nx},table=2,{ {'i8': 'int64', 'f8': 'float64'}[tdtype] } time grid" + (",after a run of the same object with a schedule" if after_schedule else "")
 
     def run():
         SS.LinSolve.reset(policy_exact())
@@ -167,14 +172,18 @@ def job_ceiling_run(job, nx, tdtype):
         fluid = DensityFluid(2)
         c = ctx()
         c.assume((lift(fluid.m_i) <= lift(fluid.ms_top)).node)
-        r = mod.SinglePhaseReservoir(Q(nx), fresh("pf"), fresh("pi", pos=True), fluid)
-        mf = fluid.m_scaled_func(r.pressure_fracface)
+        pf_own = fresh("pf")
+        r = mod.SinglePhaseReservoir(Q(nx), pf_own, fresh("pi", pos=True), fluid)
+        mf = fluid.m_scaled_func(pf_own)
+        if after_schedule:
+            r.simulate(t, pressure_fracface=SymArray([fresh(f"pfs{k}") for k in range(2)], "f8"))
+            SS.LinSolve.reset(policy_exact())
         r.simulate(t)
         rho = SS.Interp1d(fluid.pvt_props["m-scaled"], fluid.pvt_props["density"], fill_value="extrapolate")
         rfd = r.recovery_factor(density=True)
         return rfd.d, rho(mf), rho(fluid.m_i), rows_of(r), mf, fluid.m_i
 
-    rp = (replay_ceiling_run, {"nx": nx, "tdtype": tdtype})
+    rp = (replay_ceiling_run, {"nx": nx, "tdtype": tdtype, "after_schedule": after_schedule})
     for k, pr in enumerate(paths(job, run, [], max_paths=256)):
         if pr.exc is not None:
             if isinstance(pr.exc, SS.NonMonotoneAbscissae):
@@ -519,7 +528,8 @@ def jobs(tier):
     out = [("flux-derivative-5", lambda j: job_flux_is_boundary_derivative(j, 5)), ("ceiling-3-2", lambda j: job_zero_and_ceiling(j, 3, 2)), ("ceiling-4-2", lambda j: job_zero_and_ceiling(j, 4, 2)),
            ("scale", job_scale), ("trapezoid-4", lambda j: job_trapezoid(j, 4)),
            ("ceiling-3-3-descending", lambda j: job_zero_and_ceiling(j, 3, 3, True)),
-           ("ceiling-run-3-float", lambda j: job_ceiling_run(j, 3, "f8")), ("ceiling-run-3-int", lambda j: job_ceiling_run(j, 3, "i8"))]
+           ("ceiling-run-3-float", lambda j: job_ceiling_run(j, 3, "f8")), ("ceiling-run-3-int", lambda j: job_ceiling_run(j, 3, "i8")),
+           ("ceiling-run-3-after-a-schedule-run", lambda j: job_ceiling_run(j, 3, "f8", True))]
     for cls in ("SinglePhaseReservoir", "IdealReservoir"):
         out.append((f"flux-{cls[:6]}-3", lambda j, c=cls: job_flux_monotone(j, c, 3)))
     for nx in ((3, 5) if tier == "quick" else (3, 4, 5, 8)):
